@@ -3,7 +3,7 @@
    [abs] maps a handler state to the abstract specification state "stream id -> (request number, ordered pages)"
    + completed entries; [astep] is the specification, driven only by the operation and its reported outcome. *)
 From Coq Require Import ZArith List Bool.
-From GCNP Require Import model.Inflight proofs.Inflight proofs.InflightInv proofs.InflightC09 proofs.InflightC10.
+From GCNP Require Import model.Inflight proofs.Inflight proofs.InflightInv proofs.InflightC09 proofs.InflightC10 proofs.InflightReuse.
 Import ListNotations.
 Open Scope Z_scope.
 
@@ -71,6 +71,44 @@ Print Assumptions C10_deliver_to_failed_request.
 Example C10_deliver_to_failed_request_ex :
   exists r, lookup 1 (inflight (run ex10 [Tick 100])) = Some r /\ done r = true.
 Proof. eexists. split; vm_compute; reflexivity. Qed.
+
+(* ---- id reuse racing with a late page. Request A, registered under a caller-chosen id k, has failed WITHOUT its final
+        frame (read timeout, too many pending pages). Over every continuation [ops] without A's final frame and without
+        Close: the entry under k is still A (same creation number), done, with exactly the pages, the error and the one
+        channel close it had ([frozen]) - so no frame sent for k meanwhile reached anybody; a new request with id k is
+        refused and changes nothing; and the next frame for k (final or not) is refused with "request closed", leaves every
+        other entry of the map alone, and the final one unregisters A, nobody else.
+        (That a delivery only ever touches the entry under its id is C10_deliver_frame_condition; that a managed send never
+        yields a registered id is C09_managed_send_never_duplicates.) *)
+Theorem C10_late_frames_reach_no_later_request :
+  forall s ops k r last tag,
+  Inv s -> k <> 0 -> In (k, r) (inflight s) -> done r = true -> Forall (fun o => ~ removes o k) ops ->
+  let s1 := run s ops in
+  exists r1, lookup k (inflight s1) = Some r1 /\ frozen r r1 /\
+    (exists e, step s1 (SendExplicit k) = (s1, ORefused e) /\ (e = EInUse \/ e = ETooMany)) /\
+    snd (step s1 (Deliver k last tag)) = ODeliverErr ERequestClosed /\
+    (forall k', k' <> k -> lookup k' (inflight (fst (step s1 (Deliver k last tag)))) = lookup k' (inflight s1)) /\
+    (if last then lookup k (inflight (fst (step s1 (Deliver k last tag)))) = None /\
+                  finished (fst (step s1 (Deliver k last tag))) = finished s1 ++ [r1]
+     else lookup k (inflight (fst (step s1 (Deliver k last tag)))) = Some r1 /\
+          finished (fst (step s1 (Deliver k last tag))) = finished s1).
+Proof. exact late_frames_reach_no_later_request. Qed.
+Print Assumptions C10_late_frames_reach_no_later_request.
+(* non-vacuity with the history of the seeded change C10-a (maxPending = 1): A = explicit 1 gets two pages nobody reads
+   and is closed for too many pending pages; then a second send of 1 (refused), a managed send that borrows id 1 (refused,
+   the id goes back to the end of the pool), one that gets id 2, a late page (refused), a read, a tick *)
+Example C10_late_frames_reach_no_later_request_ex :
+  let s := run (init 2 1 100) [SendExplicit 1; Deliver 1 false 0; Deliver 1 false 1] in
+  let ops := [SendExplicit 1; SendManaged; SendManaged; Deliver 1 false 3; Recv 1; Tick 500] in
+  Inv s /\ Forall (fun o => ~ removes o 1) ops /\
+  (exists r, In (1, r) (inflight s) /\ done r = true /\ err r = Some ETooManyPending /\ queue r = [0]) /\
+  trace s ops = [ORefused EInUse; ORefused EInUse; OAccepted 2; ODeliverErr ERequestClosed; ORecvFrame 0; OTick].
+Proof.
+  cbn zeta. split; [apply run_inv, init_inv; discriminate|].
+  split; [repeat constructor; intros [[tag H]|H]; discriminate|].
+  split; [eexists; split; [vm_compute; left; reflexivity|vm_compute; repeat split; reflexivity]|].
+  vm_compute. reflexivity.
+Qed.
 
 (* ---- a response for an unknown stream id changes nothing but the returned error *)
 Theorem C10_unknown_id_dropped :
